@@ -302,15 +302,15 @@ theorem catCtor_cols (A C : List Nat) (m n m' p : Nat) (hl : C.length = A.length
 
 /-- `cat_rows` on a SQUARE operator, cross / new matrices of the operator's rank: accepts exactly the dense block matrix
 `[[A, Bᵀ], [B, D]]` that torch accepts, with its shape. -/
-theorem catRows_square_same_rank_iff (A C W : List Nat) (n o n' o1 o2 : Nat) (hC : C.length = A.length)
+theorem catRowsUnguarded_square_same_rank_iff (A C W : List Nat) (n o n' o1 o2 : Nat) (hC : C.length = A.length)
     (hW : W.length = A.length) (s : List Nat) :
-    catRows (A ++ [n, n]) (C ++ [o, n']) (W ++ [o1, o2]) = .ok s ↔
+    catRowsUnguarded (A ++ [n, n]) (C ++ [o, n']) (W ++ [o1, o2]) = .ok s ↔
       catRowsShape? (A ++ [n, n]) (C ++ [o, n']) (W ++ [o1, o2]) = some s := by
   have hlt : ¬ (A ++ [n, n]).length < (C ++ [o, n']).length := by simp [hC]
   have hr2 : (A ++ [n, n]).length - 2 = A.length := by simp
   have hr1 : (A ++ [n, n]).length - 1 = A.length + 1 := by simp
   have hWC : W.length = C.length := by omega
-  simp only [catRows, catRowsShape?, split2_append, hlt, if_false, hr2, hr1, swapLast2_append, catCtor_rows A C n n o n' hC]
+  simp only [catRowsUnguarded, catRowsShape?, split2_append, hlt, if_false, hr2, hr1, swapLast2_append, catCtor_rows A C n n o n' hC]
   by_cases h1 : C = A ∧ n' = n
   · obtain ⟨rfl, rfl⟩ := h1
     have hlo := catCtor_rows C W n' o o1 o2 hWC
@@ -334,6 +334,37 @@ theorem catRows_square_same_rank_iff (A C W : List Nat) (n o n' o1 o2 : Nat) (hC
 
 /-- a rectangular operator with a compensating `new_mat` passes all three constructor checks (the result is not a block matrix) -/
 theorem catRows_rect_counterexample :
-    catRows [4, 3] [2, 3] [3, 2] = .ok [6, 5] ∧ catRowsShape? [4, 3] [2, 3] [3, 2] = none := by decide
+    catRowsUnguarded [4, 3] [2, 3] [3, 2] = .ok [6, 5] ∧ catRowsShape? [4, 3] [2, 3] [3, 2] = none ∧
+    catRows [4, 3] [2, 3] [3, 2] = .error .notSquare := by decide
+
+/-- guarded `cat_rows`, any (also rectangular) operator, cross / new matrices of the operator's rank -/
+theorem catRows_same_rank_iff (A C W : List Nat) (m n o n' o1 o2 : Nat) (hC : C.length = A.length)
+    (hW : W.length = A.length) (s : List Nat) :
+    catRows (A ++ [m, n]) (C ++ [o, n']) (W ++ [o1, o2]) = .ok s ↔
+      catRowsShape? (A ++ [m, n]) (C ++ [o, n']) (W ++ [o1, o2]) = some s := by
+  by_cases h : m = n
+  · subst h
+    simp only [catRows, split2_append, ne_eq, not_true_eq_false, if_false]
+    exact catRowsUnguarded_square_same_rank_iff A C W m o n' o1 o2 hC hW s
+  · have hlt : ¬ (A ++ [m, n]).length < (C ++ [o, n']).length := by simp [hC]
+    simp only [catRows, catRowsShape?, split2_append, ne_eq, h, not_false_eq_true, if_true, hlt, if_false]
+    simp [h]
+
+theorem nonEllipsis_count : ∀ idx : List Idx, nonEllipsis idx + idx.count .ellipsis = idx.length
+  | [] => by simp [nonEllipsis]
+  | x :: r => by
+    have ih := nonEllipsis_count r
+    cases x <;> simp [nonEllipsis, List.count_cons] <;> omega
+
+theorem tooManyIndices_iff_torch (ndim : Nat) (idx : List Idx) (h : idx.count .ellipsis ≤ 1) :
+    indexCountGuard ndim idx = .error .index ↔ tooManyIndices ndim idx = true := by
+  have hf := nonEllipsis_count idx
+  simp only [indexCountGuard, expandedIndexLen, tooManyIndices, decide_eq_true_eq]
+  by_cases h1 : idx.count .ellipsis = 1
+  · simp only [h1, if_true]
+    split <;> simp <;> omega
+  · have h0 : idx.count .ellipsis = 0 := by omega
+    simp only [h0]
+    split <;> simp <;> omega
 
 end LinOp.C19.Ext
